@@ -127,6 +127,26 @@ extern "C" void vp_main() {
   vp_assert("result-independent-of-stale-errno", r1 == r2 && (r1 != RESULT_OK || v1 == v2));
   if (r1 == RESULT_OK && g_sc.kind == 2) vp_cover("accepted-number");
   vp_observe("r1", static_cast<uint64_t>(static_cast<int64_t>(r1)));
+#elif defined(H_INVERSE)
+  // C06 at the value level: the text ebusd prints for an in-range raw value r denotes sv (integer types), sv*|div| (negative
+  // divisor) or sv/10^k (decimal divisor, printed with exactly k digits, so strtod returns the correctly rounded quotient);
+  // encoding that text must succeed and give r back
+  uint32_t r0 = vp_nondet_u32();
+  if ((T_BITS) < 32) r0 &= (1u << (T_BITS)) - 1;
+  int64_t sv = refSigned(r0), lo0 = refSigned(T_MIN), hi0 = refSigned(T_MAX);
+  vp_assume(sv >= lo0 && sv <= hi0 && (req || r0 != (T_REPL)));
+  g_sc.kind = 2; g_sc.huge = false; g_sc.suffix = 0; g_sc.lead = false; g_sc.errno0 = 0;
+  g_sc.neg = sv < 0; g_sc.mag = sv < 0 ? static_cast<uint64_t>(-sv) : static_cast<uint64_t>(sv);
+  g_sc.dval = (T_DIV) > 0 ? static_cast<double>(sv) / static_cast<double>(T_DIV) : static_cast<double>(sv) * static_cast<double>(-(T_DIV));
+  std::string text = scenarioText(g_sc, decimal);
+  errno = 0;
+  unsigned int raw = 0xdeadbeef;
+  result_t r = t.parseInput(text, &raw);
+  vp_assert("text-of-a-decoded-value-encodes-again", r == RESULT_OK);
+  vp_assert("and-reproduces-the-raw-value", r != RESULT_OK || raw == r0);
+  if (sv == lo0) vp_cover("minimum-value");
+  if (sv == hi0) vp_cover("maximum-value");
+  vp_observe("r", static_cast<uint64_t>(static_cast<int64_t>(r)));
 #else
   std::string text = scenarioText(g_sc, decimal);
   errno = g_sc.errno0;
